@@ -17,8 +17,6 @@ structure RuleHyp (ctx : Ctx) (M : DB) (r : Rule) : Prop where
   sup : r.supported = true
   headNoWild : r.head.args.all (fun a => a != .wild) = true
   safe : safeNegAux r.body (varsOf r.head.args) = true
-  negBase : ∀ a, Lit.neg a ∈ r.body → M.get a.rel = []
-  noRep : ∀ a, Lit.pos a ∈ r.body → ctx.isDerived a.rel = true → (varsOf a.args).Nodup
   arity : ∀ a, Lit.pos a ∈ r.body → ∀ r' ∈ ctx.rules, r'.head.rel = a.rel → r'.head.args.length = a.args.length
   plain : ∀ x ∈ varsOf r.terms, isPlaceholderName x = false
   goodTerms : ∀ t ∈ r.terms, GoodTerm t
@@ -38,7 +36,7 @@ def BnSpec (ctx : Ctx) (M : DB) (bn : BuildFn) : Prop :=
 def EnSpec (ctx : Ctx) (en : EnumFn) : Prop :=
   ∀ rel bts vis, GoodBts bts → ∀ p ∈ en rel bts vis,
     GoodT p.1 ∧ (∃ r ∈ ctx.rules, r.head.rel = rel ∧ p.1.length = r.head.args.length) ∧
-    enumMatchesPattern bts p.1 = true ∧ p.2 = enumNewBinds bts p.1 []
+    enumMatchesPattern bts p.1 = true ∧ enumNewBinds bts p.1 [] = some p.2
 
 /-- a state after the prefix `pre` of the body of `r` (explaining `tuple`), in builder `b`;
     `bound` = the variables known to be bound. -/
@@ -145,7 +143,6 @@ theorem GoodBts_substitute (β : Bindings) (a : Atom) (hb : GoodB β) (ha : ∀ 
 theorem posMatches_cands (ctx : Ctx) (M : DB) (hy : Hyp ctx M) (en : EnumFn) (hen : EnSpec ctx en) (vis : Visited)
     (β : Bindings) (a : Atom) (hb : GoodB β)
     (hs : ∀ x ∈ a.args, x ≠ Term.other) (hgt : ∀ t ∈ a.args, GoodTerm t)
-    (hnr : ctx.isDerived a.rel = true → (varsOf a.args).Nodup)
     (har : ∀ r' ∈ ctx.rules, r'.head.rel = a.rel → r'.head.args.length = a.args.length) :
     ∀ p ∈ posMatches ctx en vis a β, CandOK β a p := by
   intro p hp
@@ -157,18 +154,13 @@ theorem posMatches_cands (ctx : Ctx) (M : DB) (hy : Hyp ctx M) (en : EnumFn) (he
     intro hd q hq
     obtain ⟨g1, ⟨r', hr', hrel, hlen⟩, g3, g4⟩ := hen a.rel (substituteAtom a β) vis (GoodBts_substitute β a hb hgt) q hq
     have hl : q.1.length = a.args.length := by rw [hlen]; exact har r' hr' hrel
-    obtain ⟨_, e2, e3, e4⟩ := enum_sound β a.args q.1 [] hl hs g1 (hnr hd) (fun x hx => by simp at hx)
-      (fun x _ => rfl) g3
-    unfold substituteAtom at g4
-    refine ⟨g1, ?_, ?_, ?_, ?_⟩
-    · rw [g4]; exact e2
-    · rw [g4]; exact e3 (fun p hp => by simp at hp)
-    · rw [g4]; exact e4 _ (Ext.refl _) e2
-    · intro q' hq'
-      rw [g4] at hq'
-      rcases enumNewBinds_keys β a.args q.1 [] q' hq' with h | h
-      · simp at h
-      · exact h
+    unfold substituteAtom at g3 g4
+    obtain ⟨_, e2, e3, e4⟩ := enum_sound β a.args q.1 [] q.2 hl hs g1 (fun x hx => by simp at hx) g3 g4
+    refine ⟨g1, e2, e3 (fun p hp => by simp at hp), e4 _ (Ext.refl _) e2, ?_⟩
+    intro q' hq'
+    rcases enumNewBinds_keys β a.args q.1 [] q.2 g4 q' hq' with h | h
+    · simp at h
+    · exact h
   split at hp
   · rename_i h1
     simp only [Bool.and_eq_true] at h1
@@ -286,7 +278,7 @@ theorem stepState_ok (ctx : Ctx) (M : DB) (hy : Hyp ctx M) (bn : BuildFn) (en : 
     have hs := supported_pos r hr.sup a hl
     have hgt : ∀ t ∈ a.args, GoodTerm t := fun t ht => hr.goodTerms t (mem_terms_pos r a hl t ht)
     exact stepMatches_ok ctx M bn hbn r tuple vis a pre bound β kids _ b hb hst
-      (posMatches_cands ctx M hy en hen vis β a hst.good hs hgt (hr.noRep a hl) (hr.arity a hl))
+      (posMatches_cands ctx M hy en hen vis β a hst.good hs hgt (hr.arity a hl))
       (fun x hx => (mem_varsOf r.terms x).mpr (mem_terms_pos r a hl _ ((mem_varsOf a.args x).mp hx)))
   | neg a =>
     simp only [stepState, boundAfter]
@@ -310,14 +302,22 @@ theorem stepState_ok (ctx : Ctx) (M : DB) (hy : Hyp ctx M) (bn : BuildFn) (en : 
         · exact KidsOK_mono ctx.base M _ _ p1 _ _ _ hst.kids
         · simp only [KidsOK, and_true]
           refine ⟨_, g1, rfl, rfl, rfl, hclosed, ?_⟩
-          have hw : world ctx.base M a.rel = ctx.base.get a.rel := by simp [world, hr.negBase a hl]
-          rw [hw, List.all_eq_true]
+          rw [List.all_eq_true]
           intro t ht
-          have := findMatching_isEmpty a.rel (substituteAtom a β) ctx.base
-          rw [hemp] at this
-          simp only [Bool.true_eq, Bool.not_eq_true'] at this
-          have := (List.any_eq_false.mp this) t ht
-          simpa [negBlockedBy] using this
+          have hB := findMatching_isEmpty a.rel (substituteAtom a β) ctx.base
+          have hM := findMatching_isEmpty a.rel (substituteAtom a β) M
+          simp only [negMatches, hy.der] at hemp
+          have hboth : (findMatching a.rel (substituteAtom a β) ctx.base).isEmpty = true ∧
+              (findMatching a.rel (substituteAtom a β) M).isEmpty = true := by
+            split at hemp
+            · rename_i h1; exact ⟨h1, hemp⟩
+            · rename_i h1; exact absurd hemp h1
+          rw [hboth.1] at hB
+          rw [hboth.2] at hM
+          simp only [Bool.true_eq, Bool.not_eq_true'] at hB hM
+          rcases List.mem_append.mp ht with h' | h'
+          · have := (List.any_eq_false.mp hB) t h'; simpa [negBlockedBy] using this
+          · have := (List.any_eq_false.mp hM) t h'; simpa [negBlockedBy] using this
     · exact ⟨hb, Pre.refl b, fun st' h => by simp at h⟩
   | cmp x op y =>
     simp only [stepState, boundAfter]
@@ -480,10 +480,10 @@ theorem addRuleNodes_ok (ctx : Ctx) (M : DB) (r : Rule) (hr : RuleHyp ctx M r) (
         rw [filter_plain fb hplain]
         refine ⟨KidsOK_lt ctx.base M b.nodes fb _ kids hst.kids, ?_⟩
         exact ⟨r, hidx, hrel, hst.head, hst.cmps, hst.kids⟩
-      obtain ⟨b1, p1, m, g1, g2, g3, g4⟩ := BInv_insert ctx.rules ctx.base M b _ hb hnode rfl
+      obtain ⟨b1, p1, m, g1, g2, g3, g4⟩ := BInv_insertRule ctx.rules ctx.base M b _ hb hnode rfl
       obtain ⟨b2, p2, c2⟩ := addRuleNodes_ok ctx M r hr idx hidx rel hrel values sts
-        (res ++ [(b.insert { kind := .rule idx (fb.filter (fun p => !isPlaceholderName p.1)), pred := rel, args := values, children := kids }).1])
-        (b.insert { kind := .rule idx (fb.filter (fun p => !isPlaceholderName p.1)), pred := rel, args := values, children := kids }).2 b1
+        (res ++ [(b.insertRule { kind := .rule idx (fb.filter (fun p => !isPlaceholderName p.1)), pred := rel, args := values, children := kids }).1])
+        (b.insertRule { kind := .rule idx (fb.filter (fun p => !isPlaceholderName p.1)), pred := rel, args := values, children := kids }).2 b1
         (fun st h => StOK_mono p1 (hs st (List.mem_cons_of_mem _ h)))
         (fun id hid => by
           rcases List.mem_append.mp hid with h | h
@@ -555,7 +555,7 @@ theorem truncNodeAt_ok (ctx : Ctx) (M : DB) : BnSpec ctx M (truncNodeAt ctx) := 
   have hnode : NodeOK ctx.rules ctx.base M b.nodes b.nodes.length
       { kind := .trunc ctx.maxDepth, pred := rel, args := t } := by
     unfold NodeOK; simp
-  obtain ⟨b1, p1, g1⟩ := BInv_insertUnique ctx.rules ctx.base M b _ hb hnode
+  obtain ⟨b1, p1, g1⟩ := BInv_insertIncomplete ctx.rules ctx.base M b _ hb hnode
   refine ⟨b1, p1, ?_⟩
   intro id hid
   simp only [List.mem_singleton] at hid
@@ -574,6 +574,17 @@ theorem factNode_ok (ctx : Ctx) (M : DB) (rel : String) (t : Tuple) (b : Builder
     cases s <;> simp_all
   obtain ⟨b1, p1, m, g1, g2, g3, g4⟩ := BInv_insert ctx.rules ctx.base M b _ hb hnode rfl
   exact ⟨b1, p1, m, g1, g2, g3, g4⟩
+
+theorem factNodeIncomplete_ok (ctx : Ctx) (M : DB) (rel : String) (t : Tuple) (b : Builder)
+    (hb : BInv ctx.rules ctx.base M b) (hs : memL t (world ctx.base M rel) = true) :
+    BInv ctx.rules ctx.base M (b.insertIncomplete (factNode rel t .derived)).2 ∧
+      Pre b (b.insertIncomplete (factNode rel t .derived)).2 ∧
+      Concl (b.insertIncomplete (factNode rel t .derived)).2 (b.insertIncomplete (factNode rel t .derived)).1 rel t := by
+  have hnode : NodeOK ctx.rules ctx.base M b.nodes b.nodes.length (factNode rel t .derived) := by
+    unfold NodeOK factNode
+    simp_all
+  obtain ⟨b1, p1, g1⟩ := BInv_insertIncomplete ctx.rules ctx.base M b _ hb hnode
+  exact ⟨b1, p1, _, g1, rfl, rfl, rfl⟩
 
 theorem rulesFor_mem (ctx : Ctx) (rel : String) : ∀ r ∈ ctx.rulesFor rel, r ∈ ctx.rules ∧ r.head.rel = rel := by
   intro r hr
@@ -703,24 +714,32 @@ theorem matchArgs_good : ∀ (bts : List BT) (t : Tuple) (nb0 nb : Bindings), Go
         · exact hg v List.mem_cons_self
         · exact h0 p hp
 
-theorem enumNewBinds_good : ∀ (bts : List BT) (t : Tuple) (nb0 : Bindings), GoodT t → GoodB nb0 →
-    GoodB (enumNewBinds bts t nb0)
-  | [], _, nb0, _, h0 => by simpa [enumNewBinds] using h0
-  | _ :: _, [], nb0, _, h0 => by
-    unfold enumNewBinds
-    split <;> first | exact h0 | simp_all
-  | bt :: bts, v :: vs, nb0, hg, h0 => by
+theorem enumNewBinds_good : ∀ (bts : List BT) (t : Tuple) (nb0 nb : Bindings), GoodT t → GoodB nb0 →
+    enumNewBinds bts t nb0 = some nb → GoodB nb
+  | [], _, nb0, nb, _, h0, h => by simp only [enumNewBinds, Option.some.injEq] at h; subst h; exact h0
+  | _ :: _, [], nb0, nb, _, h0, h => by
+    unfold enumNewBinds at h
+    split at h <;> simp_all
+  | bt :: bts, v :: vs, nb0, nb, hg, h0, h => by
     have hg' : GoodT vs := fun w hw => hg w (List.mem_cons_of_mem _ hw)
     cases bt with
-    | conc e => simp only [enumNewBinds]; exact enumNewBinds_good bts vs nb0 hg' h0
-    | anon => simp only [enumNewBinds]; exact enumNewBinds_good bts vs nb0 hg' h0
+    | conc e => simp only [enumNewBinds] at h; exact enumNewBinds_good bts vs nb0 nb hg' h0 h
+    | anon => simp only [enumNewBinds] at h; exact enumNewBinds_good bts vs nb0 nb hg' h0 h
     | unb x =>
-      simp only [enumNewBinds]
-      refine enumNewBinds_good bts vs ((x, v) :: nb0) hg' ?_
-      intro p hp
-      rcases List.mem_cons.mp hp with rfl | hp
-      · exact hg v List.mem_cons_self
-      · exact h0 p hp
+      simp only [enumNewBinds] at h
+      cases hn : nb0.lookup x with
+      | some e =>
+        simp only [hn] at h
+        split at h
+        · exact enumNewBinds_good bts vs nb0 nb hg' h0 h
+        · cases h
+      | none =>
+        simp only [hn] at h
+        refine enumNewBinds_good bts vs ((x, v) :: nb0) nb hg' ?_ h
+        intro p hp
+        rcases List.mem_cons.mp hp with rfl | hp
+        · exact hg v List.mem_cons_self
+        · exact h0 p hp
 
 theorem findMatching_good (rel : String) (bts : List BT) (db : DB) (hdb : GoodDB db) :
     ∀ p ∈ findMatching rel bts db, GoodT p.1 ∧ GoodB p.2 := by
@@ -749,8 +768,7 @@ theorem posMatches_good (ctx : Ctx) (M : DB) (hy : Hyp ctx M) (en : EnumFn) (hen
   have henum : ∀ q ∈ en a.rel (substituteAtom a β) vis, GoodB q.2 := by
     intro q hq
     obtain ⟨g1, _, _, g4⟩ := hen a.rel (substituteAtom a β) vis hb q hq
-    rw [g4]
-    exact enumNewBinds_good _ _ [] g1 (fun p hp => by simp at hp)
+    exact enumNewBinds_good _ _ [] q.2 g1 (fun p hp => by simp at hp) g4
   split at hp
   · split at hp
     · exact henum p hp
@@ -940,7 +958,7 @@ theorem enumHeadBindings_good : ∀ (bts : List BT) (args : List Term) (b : Bind
 
 def EnItem (ctx : Ctx) (rel : String) (bts : List BT) (p : Tuple × Bindings) : Prop :=
   GoodT p.1 ∧ (∃ r ∈ ctx.rules, r.head.rel = rel ∧ p.1.length = r.head.args.length) ∧
-    enumMatchesPattern bts p.1 = true ∧ p.2 = enumNewBinds bts p.1 []
+    enumMatchesPattern bts p.1 = true ∧ enumNewBinds bts p.1 [] = some p.2
 
 theorem enumCollect_ok (ctx : Ctx) (rel : String) (bts : List BT) (r : Rule) (hr : r ∈ ctx.rules) (hrel : r.head.rel = rel)
     (hgt : ∀ a ∈ r.head.args, GoodTerm a) :
@@ -961,12 +979,18 @@ theorem enumCollect_ok (ctx : Ctx) (rel : String) (bts : List BT) (r : Rule) (hr
         split at hp
         · rename_i hm
           obtain ⟨l1, g1⟩ := enumHeadValues_spec fb (hs (fb, kids) List.mem_cons_self) r.head.args t hgt hv
-          refine enumCollect_ok ctx rel bts r hr hrel hgt sts _ hs' ?_ p hp
-          intro q hq
-          rcases List.mem_append.mp hq with hq | hq
-          · exact ha q hq
-          · rw [List.eq_of_mem_singleton hq]
-            exact ⟨g1, ⟨r, hr, hrel, l1⟩, hm, rfl⟩
+          cases hnb : enumNewBinds bts t [] with
+          | none =>
+            simp only [hnb] at hp
+            exact enumCollect_ok ctx rel bts r hr hrel hgt sts acc hs' ha p hp
+          | some nb =>
+            simp only [hnb] at hp
+            refine enumCollect_ok ctx rel bts r hr hrel hgt sts _ hs' ?_ p hp
+            intro q hq
+            rcases List.mem_append.mp hq with hq | hq
+            · exact ha q hq
+            · rw [List.eq_of_mem_singleton hq]
+              exact ⟨g1, ⟨r, hr, hrel, l1⟩, hm, hnb⟩
         · exact enumCollect_ok ctx rel bts r hr hrel hgt sts acc hs' ha p hp
 
 theorem enumRules_ok (ctx : Ctx) (M : DB) (hy : Hyp ctx M) (hrules : ∀ r ∈ ctx.rules, RuleHyp ctx M r)
@@ -1114,34 +1138,22 @@ theorem GoodTerm_of_good (t : Term) (h : t.good = true) : GoodTerm t := by
   simp only [Term.good, hv] at h
   exact h
 
-theorem RuleHyp_of_fragment (ctx : Ctx) (M : DB) (h : c21Fragment ctx.rules M = true) :
+theorem RuleHyp_of_fragment (ctx : Ctx) (M : DB) (h : c21Fragment ctx.rules = true) :
     ∀ r ∈ ctx.rules, RuleHyp ctx M r := by
   intro r hr
   simp only [c21Fragment, List.all_eq_true] at h
   have hr' := h r hr
   simp only [Bool.and_eq_true, List.all_eq_true] at hr'
   obtain ⟨⟨⟨⟨⟨h1, h2⟩, h3⟩, h4⟩, h5⟩, h6⟩ := hr'
-  refine ⟨h1, by simpa [List.all_eq_true] using h2, h3, ?_, ?_, ?_, ?_, ?_⟩
-  · intro a ha
-    have := h6 _ ha
-    simpa using this
-  · intro a ha hd
-    have := h6 _ ha
-    simp only [Ctx.isDerived] at hd
-    simp only [hd, Bool.not_true, Bool.false_or, Bool.and_eq_true, decide_eq_true_eq] at this
-    exact this.1
+  refine ⟨h1, by simpa [List.all_eq_true] using h2, h3, ?_, ?_, ?_⟩
   · intro a ha r' hr'm hrel
-    have := h6 _ ha
-    simp only [Bool.or_eq_true, Bool.not_eq_true', Bool.and_eq_true, List.all_eq_true] at this
-    rcases this with hn | ⟨_, hall⟩
-    · have : ctx.rules.any (fun r' => r'.head.rel == a.rel) = true := by
-        rw [List.any_eq_true]; exact ⟨r', hr'm, by simp [hrel]⟩
-      rw [this] at hn; cases hn
-    · have := hall r' hr'm
-      simp only [Bool.or_eq_true, bne_iff_ne, ne_eq, beq_iff_eq] at this
-      rcases this with h' | h'
-      · exact absurd hrel h'
-      · exact h'
+    have h6' := h6 _ ha
+    simp only [List.all_eq_true] at h6'
+    have := h6' r' hr'm
+    simp only [Bool.or_eq_true, bne_iff_ne, ne_eq, beq_iff_eq] at this
+    rcases this with h' | h'
+    · exact absurd hrel h'
+    · exact h'
   · intro x hx
     have := h5 x hx
     simpa using this
@@ -1150,7 +1162,7 @@ theorem RuleHyp_of_fragment (ctx : Ctx) (M : DB) (h : c21Fragment ctx.rules M = 
 
 /-- **build_valid**: in the fragment, whatever `.why` returns is accepted by `valid`. -/
 theorem whyTree_valid (prog : Program) (base M : DB) (rel : String) (tuple : Tuple) (depth : Nat)
-    (hf : c21Fragment prog M = true) (hd : derivedOnlyHeads prog M = true)
+    (hf : c21Fragment prog = true) (hd : derivedOnlyHeads prog M = true)
     (hb : goodDB base = true) (hm : goodDB M = true) (ht : tuple.all goodV = true) :
     valid prog base M (whyTree { rules := prog, base := base, derived := some M, maxDepth := depth } rel tuple) = true := by
   let ctx : Ctx := { rules := prog, base := base, derived := some M, maxDepth := depth }
